@@ -313,6 +313,7 @@ func workerMain(p *erased, t Tier, seed uint64, b Budget, wi, nw int) int {
 	shapes := map[uint64]bool{}
 	allShapes := map[uint64]bool{}
 	nviol := 0
+	seenKnown := map[string]bool{}
 
 	var wdMu sync.Mutex
 
@@ -389,6 +390,18 @@ func workerMain(p *erased, t Tier, seed uint64, b Budget, wi, nw int) int {
 
 		if out.Sample != nil && len(sum.Samples) < 2 && out.NonTrivial {
 			sum.Samples = append(sum.Samples, out.Sample)
+		}
+
+		if out.Violation != nil && matchKnown(p.ID, out.Violation) != nil {
+			// a listed finding: report it once per worker, never let it stop the search
+			sum.Probes["known-finding-hits"]++
+
+			if seenKnown[out.Violation.Sig] {
+				continue
+			}
+
+			seenKnown[out.Violation.Sig] = true
+			nviol--
 		}
 
 		if out.Violation != nil {
